@@ -292,3 +292,42 @@ Proof.
 Qed.
 
 End InputProof.
+
+(* ---------- composition with the line scanner (C04) and read chunking ---------- *)
+(* The reader goroutine scans the opened stream through ImmediateReadAhead with some read chunking
+   [scr] and buffer size.  Whenever the script hands over the whole stream and ends in an error
+   exactly when the stream does, the source the C01 end-to-end theorem is about (PipelineEnd.source_of)
+   is the source used here: lines_spec of the delivered bytes, read-error flag of the stream. *)
+From RareV Require Import Proofs.LinesMain Proofs.PipelineEnd.
+
+Section Chunked.
+Variable gunzip : content -> option (content * bool).
+Variable probe : path -> nat.
+
+Definition indesc_of (z : bool) (bsz bufsize : nat) (scr : script) (pn : path * node) : indesc :=
+  match open_input gunzip z (probe (fst pn)) (snd pn) with
+  | None => Build_indesc (fst pn) false [] scr bufsize bsz []
+  | Some (d, _, _) => Build_indesc (fst pn) true d scr bufsize bsz []
+  end.
+
+Definition script_reads_all (z : bool) (bufsize : nat) (scr : script) (pn : path * node) : Prop :=
+  match open_input gunzip z (probe (fst pn)) (snd pn) with
+  | None => True
+  | Some (d, e, _) =>
+      forall o, run bufsize scr d = Some o -> o_del o = d /\ expected_nerr scr = (if e then 1 else 0)
+  end.
+
+Theorem source_chunked z bsz bufsize scr pn : script_reads_all z bufsize scr pn ->
+  match open_input gunzip z (probe (fst pn)) (snd pn) with
+  | Some _ => PipelineEnd.source_of (indesc_of z bsz bufsize scr pn) = Input.source_of gunzip probe z bsz pn
+  | None => fst (fst (PipelineEnd.source_of (indesc_of z bsz bufsize scr pn))) = false /\
+            fst (fst (Input.source_of gunzip probe z bsz pn)) = false
+  end.
+Proof.
+  unfold script_reads_all, indesc_of, Input.source_of, PipelineEnd.source_of, scanned.
+  destruct (open_input gunzip z (probe (fst pn)) (snd pn)) as [[[d e] g]|]; simpl.
+  - intros H. destruct (C04_scanner_proof bufsize scr d) as (o & Ho & A & _ & C & _).
+    rewrite Ho. destruct (H o Ho) as (Hd & He). rewrite A, Hd, C, He. destruct e; reflexivity.
+  - intros _. split; reflexivity.
+Qed.
+End Chunked.
